@@ -5,6 +5,7 @@ import itertools
 import os
 import re
 import time
+import traceback
 from concurrent.futures import ThreadPoolExecutor
 
 from lib import gN, gbool, gnat, glist, gopt, hexs
@@ -510,6 +511,8 @@ def run_distrib(ctx, split):
     terms = []
     for c, r in zip(cases, res):
         sc = c["scenario"]
+        for fld in ("returned", "after_cancel", "return_ms", "startup_res"):
+            r[fld] = r.get(fld) or []
         if c["mode"] == "startup":
             for j, x in enumerate(c["startup"]):
                 ctx.count(("startup", j, x["workers"], x["timing"], x["busy"]), kind="startup/" + x["timing"])
@@ -590,7 +593,7 @@ def stress_cases(ctx):
     n = 6 if ctx.tier == "quick" else 30
     return [{"mode": "stress", "regs": js, "policies": POLICIES, "goroutines": 8, "rounds": n, "ageing": False, "reloads": False},
             {"mode": "stress", "regs": js, "policies": POLICIES, "goroutines": 8, "rounds": n, "ageing": True, "reloads": False},
-            {"mode": "stress", "regs": js, "policies": POLICIES, "goroutines": 8, "rounds": n, "ageing": True, "reloads": True}], regs
+            {"mode": "stress", "regs": js, "policies": POLICIES, "goroutines": 8, "rounds": n, "ageing": True, "reloads": True, "stats": True}], regs
 
 
 RACE_RE = re.compile(r"WARNING: DATA RACE\n(.*?)\n==================", re.S)
@@ -704,11 +707,22 @@ def run(ctx):
     js = [dict(c, regs=[reg_json(r) for r in c["regs"]]) for c in cases]
     race_off = os.environ.get("VERIF_C09_RACE") == "0"
     ex = ThreadPoolExecutor(max_workers=3)
-    f_sched = ex.submit(ctx.go_inpkg, ".", PKG, DRIVER, "^TestVerifC09$", js, False, 1200)
-    f_dist = ex.submit(run_distrib, ctx, split)
+    def lane(name, fn, *a):
+        """a lane never takes the check down: its exception is reported as a broken driver, the other lanes keep their verdicts"""
+        def run_lane():
+            try:
+                return fn(*a)
+            except Exception:
+                ctx.broken("driver", "lane '%s' failed with an exception (infrastructure, not a verdict about conjure): %s"
+                           % (name, traceback.format_exc()[-1200:]))
+                return None
+        return run_lane
+
+    f_sched = ex.submit(lane("controlled schedules", ctx.go_inpkg, ".", PKG, DRIVER, "^TestVerifC09$", js, False, 1200))
+    f_dist = ex.submit(lane("distributor / lock-trace / start-up", run_distrib, ctx, split))
     # free-running stress under the race detector, overlapped with the rest of the check
-    f_race = None if race_off else ex.submit(run_stress, ctx, True)
-    rc, out, res = f_sched.result()
+    f_race = None if race_off else ex.submit(lane("stress under -race", run_stress, ctx, True))
+    rc, out, res = f_sched.result() or (1, "lane failed", None)
     f_dist.result()
     tm["go_sched_and_distrib"] = round(time.time() - t0, 1)
     t0 = time.time()
@@ -760,7 +774,7 @@ def run(ctx):
                    {"sched_cases": [cases[i]], "observed": res[i]})
     tm["coq_eval"] = round(time.time() - t0, 1)
     t0 = time.time()
-    run_stress(ctx, race=False)
+    lane("stress", run_stress, ctx, False)()
     if f_race is not None:
         f_race.result()
     else:
